@@ -1,7 +1,8 @@
 """Apply every stored seed to /repo in turn, run the checks named for it, undo; write seeded/MATRIX.json.
 usage: python3 harness/seed_matrix.py [seedname ...]"""
 import json, os, subprocess, sys
-V = "/verif"
+V = os.path.dirname(os.path.dirname(os.path.abspath(__file__)))
+R = os.environ.get("SSPTOOLS_REPO", "/repo")
 ALSO = {"C02b": ["C17"], "C01": ["C02"], "C02": ["C01"], "C05": ["C06"], "C04": [], "C19": ["C18"], "C14": ["C19"], "C18": [], "C16": [], "C06": []}
 names = sys.argv[1:] or sorted(os.listdir(os.path.join(V, "seeded")))
 MP = os.path.join(V, "seeded", "MATRIX.json")
@@ -12,12 +13,12 @@ for name in names:
         continue
     meta = json.load(open(os.path.join(d, "meta.json")))
     prop = meta["property"]
-    if subprocess.run(["git", "-C", "/repo", "apply", "--check", os.path.join(d, "patch.diff")]).returncode != 0:
+    if subprocess.run(["git", "-C", R, "apply", "--check", os.path.join(d, "patch.diff")]).returncode != 0:
         res[name] = dict(property=prop, status="patch no longer applies to /repo HEAD")
         continue
-    subprocess.run(["git", "-C", "/repo", "apply", os.path.join(d, "patch.diff")], check=True)
+    subprocess.run(["git", "-C", R, "apply", os.path.join(d, "patch.diff")], check=True)
     try:
-        demo = subprocess.run(["/venv/bin/python", os.path.join(d, "demo.py")], env=dict(os.environ, PYTHONPATH="/repo"), capture_output=True).returncode
+        demo = subprocess.run(["/venv/bin/python", os.path.join(d, "demo.py")], env=dict(os.environ, PYTHONPATH=R), capture_output=True).returncode
         row = dict(property=prop, demo_fails_with_patch=demo != 0, checks={})
         if demo == 0:
             row["status"] = "no longer manifests on /repo HEAD (its own demo passes with the patch applied)"
@@ -28,6 +29,6 @@ for name in names:
                                 "caught: no-failing-input-found" if viol else "MISSED")
         res[name] = row
     finally:
-        subprocess.run(["git", "-C", "/repo", "checkout", "--", "."], check=True)
+        subprocess.run(["git", "-C", R, "checkout", "--", "."], check=True)
     print(name, json.dumps(res[name]), flush=True)
 json.dump(res, open(MP, "w"), indent=1, sort_keys=True)
